@@ -8,6 +8,7 @@ import (
 	"context"
 	"encoding/json"
 	"fmt"
+	"io"
 	"sync"
 	"testing"
 	"time"
@@ -40,6 +41,13 @@ type Call struct {
 	// Big >= 2: the peer's answer is a body of Big 16-byte blocks that the client has to fetch
 	// block by block (Block2) with the same token (only when block-wise transfer is on)
 	Big int `json:"big,omitempty"`
+	// Late (with DupOf >= 0 of a Big call): the duplicate is issued in the middle of the original's
+	// block-wise download, after its first block has arrived and before the peer serves the next
+	Late bool `json:"late,omitempty"`
+	// what the caller does with its response: keep it for HoldMs (and look at it again afterwards),
+	// then give it back to the connection's pool (Release) or just drop it
+	HoldMs  int  `json:"holdMs,omitempty"`
+	Release bool `json:"release,omitempty"`
 }
 
 type Stray struct {
@@ -55,6 +63,11 @@ type Scenario struct {
 	Calls      []Call  `json:"calls"`
 	Order      []int   `json:"order"` // answering order (indices into Calls, only non-duplicate calls)
 	Strays     []Stray `json:"strays"`
+	// Reuse > 0 (datagram): once every call has returned, one more request takes the token of call
+	// Reuse-1 (answered by a separate confirmable response) again; while it is outstanding the
+	// peer retransmits that earlier confirmable response (same message ID, as after a lost ACK)
+	// and only then answers the new request
+	Reuse int `json:"reuse,omitempty"`
 }
 
 type result struct {
@@ -64,6 +77,8 @@ type result struct {
 	payload  []byte
 	code     int
 	at       time.Duration
+	took     time.Duration
+	changed  string // the response differed when the caller looked at it a second time
 }
 
 type doer interface {
@@ -105,6 +120,9 @@ func Exec(t *testing.T, sc Scenario, r *evid.Run) *evid.Failure {
 	var mu sync.Mutex
 	var bad bool
 	answered := make([]bool, n)
+	var reuse result
+	sepSent := map[int]refcodec.Msg{}
+	issued := make([]bool, n)
 	run := bubble.Run(t, 60*time.Second, nil, func() {
 		start := time.Now()
 		var tk endpoints.Ticker
@@ -145,11 +163,13 @@ func Exec(t *testing.T, sc Scenario, r *evid.Run) *evid.Failure {
 		_ = w.FromLib()
 		var wg sync.WaitGroup
 		issue := func(i int) {
+			issued[i] = true
 			wg.Add(1)
 			go func() {
 				defer wg.Done()
 				ctx, cancel := context.WithTimeout(context.Background(), 10*time.Second)
 				defer cancel()
+				issued := time.Now()
 				req, err := cc.NewGetRequest(ctx, fmt.Sprintf("/c/%d", i))
 				if err != nil {
 					mu.Lock()
@@ -163,11 +183,26 @@ func Exec(t *testing.T, sc Scenario, r *evid.Run) *evid.Failure {
 				}
 				resp, err := cc.Do(req)
 				cc.ReleaseMessage(req)
-				o := result{returned: true, err: err, at: time.Since(start)}
+				o := result{returned: true, err: err, at: time.Since(start), took: time.Since(issued)}
 				if err == nil {
-					o.token = resp.Token()
+					o.token = append([]byte(nil), resp.Token()...)
 					o.payload, _ = resp.ReadBody()
 					o.code = int(resp.Code())
+					if c := sc.Calls[i]; c.HoldMs > 0 {
+						time.Sleep(time.Duration(c.HoldMs) * time.Millisecond)
+						var again []byte
+						if b := resp.Body(); b != nil {
+							if _, errS := b.Seek(0, io.SeekStart); errS == nil {
+								again, _ = resp.ReadBody()
+							}
+						}
+						if !bytes.Equal(resp.Token(), o.token) || int(resp.Code()) != o.code || !bytes.Equal(again, o.payload) {
+							o.changed = fmt.Sprintf("token %x code %d body %q became token %x code %d body %q", o.token, o.code, o.payload, resp.Token(), int(resp.Code()), again)
+						}
+					}
+					if sc.Calls[i].Release {
+						cc.ReleaseMessage(resp)
+					}
 				}
 				mu.Lock()
 				res[i] = o
@@ -176,6 +211,9 @@ func Exec(t *testing.T, sc Scenario, r *evid.Run) *evid.Failure {
 		}
 		// issue the calls; a duplicate-token call is issued only once its original is outstanding
 		for i, c := range sc.Calls {
+			if c.Late {
+				continue // issued when the original's first block has arrived
+			}
 			issue(i)
 			if c.DupOf >= 0 || (i+1 < n && sc.Calls[i+1].DupOf == i) {
 				bubble.Wait()
@@ -307,6 +345,7 @@ func Exec(t *testing.T, sc Scenario, r *evid.Run) *evid.Failure {
 					time.Sleep(delay)
 				}
 				w.ToLib(sep)
+				sepSent[i] = sep
 			case "sep-first":
 				w.ToLib(sep)
 				bubble.Wait()
@@ -338,6 +377,13 @@ func Exec(t *testing.T, sc Scenario, r *evid.Run) *evid.Failure {
 				done++
 				answer(i)
 				progressed = true
+				for j, d := range sc.Calls {
+					if d.Late && d.DupOf == i {
+						bubble.Wait() // the first block has been taken in, the request for the next is out
+						issue(j)
+						bubble.Wait()
+					}
+				}
 				break
 			}
 			bubble.Wait()
@@ -366,6 +412,56 @@ func Exec(t *testing.T, sc Scenario, r *evid.Run) *evid.Failure {
 		case <-fin:
 		case <-time.After(12 * time.Second):
 		}
+		if k := sc.Reuse - 1; k >= 0 && k < n {
+			if old, ok := sepSent[k]; ok && old.Type == peer.CON && res[k].returned && res[k].err == nil {
+				_ = w.FromLib()
+				tok := sc.Calls[k].Token
+				done := make(chan struct{})
+				go func() {
+					defer close(done)
+					ctx, cancel := context.WithTimeout(context.Background(), 10*time.Second)
+					defer cancel()
+					req, err := cc.NewGetRequest(ctx, fmt.Sprintf("/c/%d", n))
+					if err != nil {
+						reuse = result{returned: true, err: err}
+						return
+					}
+					req.SetToken(tok)
+					resp, err := cc.Do(req)
+					o := result{returned: true, err: err}
+					if err == nil {
+						o.token = append([]byte(nil), resp.Token()...)
+						o.payload, _ = resp.ReadBody()
+					}
+					reuse = o
+				}()
+				bubble.Wait()
+				var rq *refcodec.Msg
+				for _, m := range w.FromLib() {
+					if m.Code == 1 && bytes.Equal(m.Token, tok) {
+						mm := m
+						rq = &mm
+					}
+				}
+				if rq != nil {
+					w.ToLib(old) // the retransmission
+					bubble.Wait()
+					_ = w.FromLib() // its acknowledgement
+					nextMID++
+					ans := refcodec.Msg{Type: peer.NON, MID: nextMID & 0xffff, Code: 69, Token: tok, Payload: expected(n, tok)}
+					if rq.Type == peer.CON {
+						ans.Type, ans.MID = peer.ACK, rq.MID
+					}
+					w.ToLib(ans)
+					bubble.Wait()
+					select {
+					case <-done:
+					case <-time.After(12 * time.Second):
+					}
+					reuse.at = 1 // marks: the re-use phase ran
+				}
+			}
+		}
 		bad = w.Bad()
 		_ = cc.Close()
 		bubble.Wait()
@@ -383,11 +479,17 @@ func Exec(t *testing.T, sc Scenario, r *evid.Run) *evid.Failure {
 	// ---- oracle
 	for i, c := range sc.Calls {
 		o := res[i]
+		if !issued[i] {
+			continue // a late duplicate whose original was never answered
+		}
 		if !o.returned {
 			return evid.Failf("match/call-hangs", sc, "call %d has not returned 2 s after its 10 s deadline", i)
 		}
 		if c.DupOf >= 0 {
 			continue
+		}
+		if o.changed != "" {
+			return evid.Failf("match/response-changed-while-held", sc, "call %d kept its response for %d ms and found it changed: %s", i, c.HoldMs, o.changed)
 		}
 		if o.err == nil {
 			if !bytes.Equal(o.token, c.Token) {
@@ -401,18 +503,30 @@ func Exec(t *testing.T, sc Scenario, r *evid.Run) *evid.Failure {
 			return evid.Failf("match/answered-call-failed", sc, "call %d (token %x) was answered by the peer (%s) but returned %v", i, c.Token, c.Style, o.err)
 		}
 	}
+	if reuse.at == 1 {
+		k := sc.Reuse - 1
+		tok := sc.Calls[k].Token
+		switch {
+		case !reuse.returned:
+			return evid.Failf("match/call-hangs", sc, "the request that re-used token %x after call %d had returned has not returned 2 s after its deadline", tok, k)
+		case reuse.err != nil:
+			return evid.Failf("match/answered-call-failed", sc, "the request that re-used token %x after call %d had returned was answered by the peer but returned %v", tok, k, reuse.err)
+		case !bytes.Equal(reuse.payload, expected(n, tok)):
+			return evid.Failf("match/retransmitted-response-delivered-again", sc, "call %d (token %x) had returned with its separate confirmable response; the peer retransmitted that response (same message ID) while a later request with the same token was outstanding, and the later request returned %q instead of %q", k, tok, reuse.payload, expected(n, tok))
+		}
+	}
 	// duplicate tokens: the duplicate is issued when the original is already on the wire and not yet
 	// answered (the harness waits for quiescence in between), so the roles are fixed: the second
 	// request is refused, promptly, and the first still completes with its own response
 	for i, c := range sc.Calls {
-		if c.DupOf < 0 || sc.Serialised {
+		if c.DupOf < 0 || sc.Serialised || !issued[i] {
 			continue
 		}
 		orig, dup := res[c.DupOf], res[i]
 		if dup.err == nil {
 			return evid.Failf("match/duplicate-token-accepted", sc, "call %d re-used token %x while call %d was outstanding and was not refused (it returned %q)", i, c.Token, c.DupOf, dup.payload)
 		}
-		if dup.at > 5*time.Second {
+		if dup.took > 5*time.Second {
 			return evid.Failf("match/duplicate-token-not-refused-promptly", sc, "call %d re-used token %x while call %d was outstanding; it failed only at %v (%v)", i, c.Token, c.DupOf, dup.at, dup.err)
 		}
 		if answered[c.DupOf] && orig.err != nil {
@@ -468,7 +582,8 @@ func gen(t *rapid.T) Scenario {
 		used[string(tok)] = true
 		c := Call{Token: tok, DupOf: -1, Non: sc.Transport == "udp" && rapid.IntRange(0, 4).Draw(t, "non") == 0,
 			Style:   rapid.SampledFrom([]string{"piggy", "piggy", "sep", "sep-first", "dup", "dup-fresh"}).Draw(t, "style"),
-			DelayMs: rapid.SampledFrom([]int{0, 0, 1, 20, 500}).Draw(t, "delay"), SepCon: rapid.Bool().Draw(t, "sepcon")}
+			DelayMs: rapid.SampledFrom([]int{0, 0, 1, 20, 500}).Draw(t, "delay"), SepCon: rapid.Bool().Draw(t, "sepcon"),
+			HoldMs: rapid.SampledFrom([]int{0, 0, 2, 30, 600}).Draw(t, "hold"), Release: rapid.Bool().Draw(t, "release")}
 		if sc.Blockwise && rapid.IntRange(0, 3).Draw(t, "big") == 0 {
 			// duplicated blocks of a block-wise body are C04's subject
 			c.Big = rapid.IntRange(2, 6).Draw(t, "nblocks")
@@ -479,6 +594,8 @@ func gen(t *rapid.T) Scenario {
 		sc.Calls = append(sc.Calls, c)
 		if !sc.Serialised && len(sc.Calls) < 8 && rapid.IntRange(0, 5).Draw(t, "dup") == 0 {
 			sc.Calls = append(sc.Calls, Call{Token: tok, DupOf: len(sc.Calls) - 1, Style: "piggy", Non: c.Non})
+		} else if !sc.Serialised && c.Big >= 2 && len(sc.Calls) < 8 && rapid.IntRange(0, 2).Draw(t, "latedup") == 0 {
+			sc.Calls = append(sc.Calls, Call{Token: tok, DupOf: len(sc.Calls) - 1, Style: "piggy", Non: c.Non, Late: true})
 		}
 	}
 	var idx []int
@@ -488,6 +605,17 @@ func gen(t *rapid.T) Scenario {
 		}
 	}
 	sc.Order = rapid.Permutation(idx).Draw(t, "order")
+	if sc.Transport == "udp" {
+		var cand []int
+		for i, c := range sc.Calls {
+			if c.DupOf < 0 && !c.Non && c.Style == "sep" && c.SepCon && c.Big == 0 && !hasDup(sc, i) {
+				cand = append(cand, i)
+			}
+		}
+		if len(cand) > 0 && rapid.Bool().Draw(t, "reuse") {
+			sc.Reuse = rapid.SampledFrom(cand).Draw(t, "reusewhich") + 1
+		}
+	}
 	ns := rapid.IntRange(0, 3).Draw(t, "nstrays")
 	for k := 0; k < ns; k++ {
 		base := sc.Calls[rapid.IntRange(0, len(sc.Calls)-1).Draw(t, "sbase")].Token
@@ -553,7 +681,13 @@ func TestCheck(t *testing.T) {
 			}
 			cls := []string{"match/" + sc.Transport}
 			big, bigDup := false, false
+			if sc.Reuse > 0 {
+				cls = append(cls, "match/token-taken-again-and-earlier-response-retransmitted")
+			}
 			for i, c := range sc.Calls {
+				if c.Late {
+					cls = append(cls, "match/colliding-request-in-the-middle-of-a-block-wise-answer")
+				}
 				if c.Big >= 2 {
 					big = true
 					bigDup = bigDup || hasDup(sc, i)
@@ -570,8 +704,8 @@ func TestCheck(t *testing.T) {
 		return f
 	})
 	r.Main(evid.Meta{
-		Rule:        "a client connection (datagram and stream, block-wise on/off) in a synctest bubble; 1-8 callers issue GETs concurrently with caller-chosen tokens of 1-8 bytes from families built to collide as far as tokens can (same bytes at different lengths, shared prefixes, leading and trailing zero padding, all-zero tokens), NSTART and the parallel-request limits either high (true concurrency) or at the library defaults (serialised); the scripted peer answers the collected requests in a generated permutation, each in a generated style (piggy-backed, empty ACK then separate CON/NON response, response before its ACK, delayed, duplicated with the same or a fresh message ID), and injects stray responses whose tokens are unknown, proper prefixes or extensions of outstanding ones; optionally a second request re-uses a token that is still outstanding; with block-wise on, a quarter of the answers are bodies of 2-6 blocks the client has to fetch block by block with the same token (on streams the peer's CSM announces block-wise transfer). Oracle: every successful call returns its own token and the payload the peer produced for that request (payload = f(request index, token)); a call the peer answered succeeds; of two simultaneous calls with one token exactly one gets the response and the other is refused; every call returns by its deadline. real: 2-6 concurrent callers with own tokens over UDP, DTLS-PSK, TCP and TLS loopback sockets against the library's own server, whose handler holds every request and answers in a generated order, some with bodies that need block-wise transfer. Non-trivial = >= 2 requests outstanding at once and (answer order != request order, or a non-piggy-backed/duplicated style, or a duplicate token); distinct by scenario",
-		Assumptions: []string{"token re-use after completion and responses for timed-out requests are outside the statement and not generated", "CRC-64 collisions between different tokens (the tables are keyed by Token.Hash()) are not constructed", "the real engine runs the same oracle over UDP, DTLS-PSK, TCP and TLS loopback sockets against the library's own servers (real time; a failure counts only if it reproduces three times in a row)"},
+		Rule:        "a client connection (datagram and stream, block-wise on/off) in a synctest bubble; 1-8 callers issue GETs concurrently with caller-chosen tokens of 1-8 bytes from families built to collide as far as tokens can (same bytes at different lengths, shared prefixes, leading and trailing zero padding, all-zero tokens), NSTART and the parallel-request limits either high (true concurrency) or at the library defaults (serialised); the scripted peer answers the collected requests in a generated permutation, each in a generated style (piggy-backed, empty ACK then separate CON/NON response, response before its ACK, delayed, duplicated with the same or a fresh message ID), and injects stray responses whose tokens are unknown, proper prefixes or extensions of outstanding ones; optionally a second request re-uses a token that is still outstanding, either at once or in the middle of the first one's block-wise download; callers keep their response for a generated time, look at it again and give it back to the pool or not; optionally, after every call has returned, one more request takes the token of a call that was answered by a separate confirmable response while the peer retransmits that response; with block-wise on, a quarter of the answers are bodies of 2-6 blocks the client has to fetch block by block with the same token (on streams the peer's CSM announces block-wise transfer). Oracle: every successful call returns its own token and the payload the peer produced for that request (payload = f(request index, token)); a call the peer answered succeeds; of two simultaneous calls with one token exactly one gets the response and the other is refused, and the first still completes; a response does not change while its caller holds it; a retransmitted response is not delivered a second time; every call returns by its deadline. real: 2-6 concurrent callers with own tokens over UDP, DTLS-PSK, TCP and TLS loopback sockets against the library's own server, whose handler holds every request and answers in a generated order, some with bodies that need block-wise transfer. Non-trivial = >= 2 requests outstanding at once and (answer order != request order, or a non-piggy-backed/duplicated style, or a duplicate token); distinct by scenario",
+		Assumptions: []string{"a token is taken again after its exchange has ended only in one constellation the library can tell apart: the earlier response was confirmable and the peer retransmits exactly that message (same message ID), which de-duplication by message ID answers without delivering it; late copies with other message IDs and responses for timed-out requests are the caller's risk (RFC 7252 5.3.1) and not generated", "CRC-64 collisions between different tokens (the tables are keyed by Token.Hash()) are not constructed", "the real engine runs the same oracle over UDP, DTLS-PSK, TCP and TLS loopback sockets against the library's own servers (real time; a failure counts only if it reproduces three times in a row)"},
 		Floor:       300,
 	}, eng, realEngine())
 }
